@@ -1,4 +1,4 @@
 CONSTANTS Tier = "t"  Emit = TRUE
 SPECIFICATION Spec
-INVARIANT TypeOK NoFail Progress RoundTrip WidthLemma TxStd
+INVARIANT TypeOK NoFail RoundTrip WidthLemma TxStd
 CHECK_DEADLOCK FALSE
